@@ -3072,7 +3072,12 @@ def concrete_values_from_iterable(
             return [pair.key for pair in value.kv_pairs]
     elif isinstance(value, KnownValue):
         if isinstance(value.val, (str, bytes, range)):
-            if len(value.val) < ITERATION_LIMIT:
+            try:
+                is_short = len(value.val) < ITERATION_LIMIT
+            except Exception:
+                # e.g. OverflowError for a range with more than sys.maxsize elements
+                is_short = False
+            if is_short:
                 return [KnownValue(c) for c in value.val]
             is_nonempty = True
     elif value is NO_RETURN_VALUE:
